@@ -17,6 +17,19 @@ type Clause struct {
 	Expr  ast.Expr
 	Where string
 	Free  bool // "assume"-style clause (trusted, listed in evidence)
+	Props []string // loop clauses: only used when checking one of these properties (empty: always)
+}
+
+func (c Clause) active(prop string) bool {
+	if len(c.Props) == 0 {
+		return true
+	}
+	for _, p := range c.Props {
+		if p == prop {
+			return true
+		}
+	}
+	return false
 }
 
 type Contract struct {
@@ -274,6 +287,7 @@ func (cs *Contracts) parseContractLines(lines []string, file string, pkgPath str
 			return err
 		}
 		cl.Free = lastClause.Free
+		cl.Props = lastClause.Props
 		switch lastKind {
 		case "requires":
 			cur.Requires = append(cur.Requires, cl)
@@ -314,6 +328,12 @@ func (cs *Contracts) parseContractLines(lines []string, file string, pkgPath str
 		word, rest := line, ""
 		if i := strings.IndexAny(line, " \t"); i >= 0 {
 			word, rest = line[:i], strings.TrimSpace(line[i+1:])
+		}
+		var wprops []string
+		if k := strings.Index(word, "@"); k > 0 {
+			// "ensures@C03 [label] ..." : a postcondition proved only when checking these properties
+			wprops = strings.Split(word[k+1:], ",")
+			word = word[:k]
 		}
 		switch word {
 		case "func":
@@ -438,7 +458,7 @@ func (cs *Contracts) parseContractLines(lines []string, file string, pkgPath str
 			if cur == nil {
 				return fmt.Errorf("%s: clause outside func", where)
 			}
-			lastClause = &Clause{Text: rest, Where: where}
+			lastClause = &Clause{Text: rest, Where: where, Props: wprops}
 			lastKind = word
 		case "assume_ensures":
 			if cur == nil {
@@ -457,6 +477,12 @@ func (cs *Contracts) parseContractLines(lines []string, file string, pkgPath str
 			var n int
 			if _, err := fmt.Sscanf(f[0], "%d", &n); err != nil {
 				return fmt.Errorf("%s: bad loop ordinal", where)
+			}
+			var lprops []string
+			if k := strings.Index(f[1], "@"); k >= 0 {
+				// "loop 0 invariant@C03,C08 [label] ..." restricts a loop clause to some properties
+				lprops = strings.Split(f[1][k+1:], ",")
+				f[1] = f[1][:k]
 			}
 			switch f[1] {
 			case "invariant":
@@ -477,6 +503,9 @@ func (cs *Contracts) parseContractLines(lines []string, file string, pkgPath str
 				cur.LoopMod[n] = append(cur.LoopMod[n], strings.Fields(f[2])...)
 			default:
 				return fmt.Errorf("%s: bad loop clause kind %q", where, f[1])
+			}
+			if f[1] != "modifies" && lastClause != nil {
+				lastClause.Props = lprops
 			}
 		case "modifies":
 			if cur == nil {
